@@ -190,6 +190,7 @@ def run(ctx):
             cases.append(dict(R=b"_" if "_" in form else b"{}", opts=form, seq=seq, r="-r" in form, lines=lines, final_nl=bool(lines), cmd=[b"cmd", b"x{}y", b"_"]))
     bad = evaluate(ctx, cases)
     no_command(ctx)
+    quoted_lines(ctx)
     import tempfile, shutil, os
     os.makedirs(os.path.join(fw.BUILD, "tmp"), exist_ok=True)
     kd = tempfile.mkdtemp(prefix="c20-", dir=os.path.join(fw.BUILD, "tmp"))
@@ -201,6 +202,29 @@ def run(ctx):
     for c in cases[:5]:
         ctx.sample({"options": c["opts"], "command": [x.decode("utf-8", "replace") for x in c["cmd"]], "input": input_of(c).decode("utf-8", "replace")})
     report(ctx, bad)
+
+
+def quoted_lines(ctx):
+    """outside the property's stated domain but inside xargs' input rules (C05, C19): with -I the lines are read with quotes and
+    backslashes processed and leading blanks skipped - so an unterminated quote is an input error (exit 1) under -I too"""
+    import subprocess
+    import tempfile
+    import os
+    with tempfile.TemporaryDirectory(prefix="c20q-", dir=fw.BUILD) as td:
+        for data, want_rc, want in ((b"'a b'  c\n  x y  \n\n\\ z\n", 0, [b"<a b  c>", b"<x y  >", b"< z>"]),
+                                    (b'"abc\n', 1, []), (b"ok\nit's\n", 1, None), (b"a\\\nb\n", 0, [b"<a\nb>"])):
+            rec = os.path.join(td, "rec")
+            if os.path.exists(rec):
+                os.remove(rec)
+            p = subprocess.run([fw.XARGS, "-I{}", fw.FUV, "record", "<{}>"], input=data, stdout=subprocess.DEVNULL, stderr=subprocess.DEVNULL,
+                               env=dict(xc.ENV, FUV_RECORD=rec), timeout=60)
+            got = [fw.unhex(line.split()[1]) for line in open(rec)] if os.path.exists(rec) else []
+            ctx.count(("quoted-lines", data), True, "quoted-lines")
+            # (whether the line before an input error is still run is not decided here: invocations start when the next argument arrives)
+            if p.returncode != want_rc or (want is not None and got != want):
+                ctx.violation("xargs -I{} CMD '<{}>' on %r: exit %d, arguments %r; expected exit %d, %r" % (data, p.returncode, got, want_rc, want),
+                              {"property": "C20", "kind": "quoted-lines", "input": fw.hexs(data), "exit": p.returncode, "arguments": [fw.hexs(g) for g in got],
+                               "expected_exit": want_rc, "expected": None if want is None else [fw.hexs(w) for w in want]})
 
 
 def no_command(ctx):
